@@ -18,6 +18,10 @@ def prop(pid, **kw):
     PROPS[pid] = kw
 
 
+EXECUTOR_REQUEST = dict(harness='c16_executor_request',
+                        covers=['c16x.send-success', 'c16x.assumed-success', 'c16x.read-success', 'c16x.send-failure', 'c16x.read-failure', 'c16x.waiting', 'c16x.pending'],
+                        min_paths=100, split=3, params={'quick': {'io_budget': 2}, 'thorough': {'io_budget': 4}}, conform={'quick': 100, 'thorough': 1000}, nvals=16)
+
 MANAGER_STEPS = dict(harness='c05_manager_steps',
                      covers=['dial.ok', 'dial.err', 'dial_address.ok', 'dial_address.err', 'open.opened', 'open.failed', 'dialed.accept',
                              'dialed.failure', 'inbound.accept', 'inbound.admitted', 'closed'],
@@ -92,10 +96,12 @@ prop('C04',
          dict(harness='c04_sink_flush', covers=['c04.flush-ready', 'c04.flush-pending'], min_paths=50, split=4,
               params={'quick': {'polls': 3}, 'thorough': {'polls': 4}}, conform={'quick': 60, 'thorough': 500}, nvals=30),
          VARINT_RECEIVE,
+         EXECUTOR_REQUEST,
          dict(harness='c04_frame_sequence', covers=['c04q.frame', 'c04q.end', 'c04q.pending'], min_paths=50, split=4,
               params={'quick': {'io_budget': 2}, 'thorough': {'io_budget': 4}}, conform={'quick': 30, 'thorough': 200}, nvals=12),
      ],
-     bounds={'frame sequence': 'three frames: 1/300/70000/131073 bytes, then 0/2/66000 bytes, then 3 bytes; limit 200000 or none; io_budget scripted carrier answers (Pending / 1 byte / half / all)',
+     bounds={'send_framed path': 'the Kademlia executor request futures (send_message / send_request_read_response / send_request_eat_response_failure) over a real Substream: 3-byte request, carrier healthy or failing at the 1st..3rd write, remote idle / closing / replying; tokio timeouts never fire',
+             'frame sequence': 'three frames: 1/300/70000/131073 bytes, then 0/2/66000 bytes, then 3 bytes; limit 200000 or none; io_budget scripted carrier answers (Pending / 1 byte / half / all)',
              'varint receive': 'max size 0/2/5, 1..11 symbolic header bytes, payload 0..6 bytes',
              'identity payload size': '1,2,32,1024,1025,2048', 'varint message (sink)': '<= 3 bytes', 'polls': 'quick 2-3, thorough 3-4',
              'carrier': 'io_budget scripted answers (Pending / 1 byte / half / all), then ideal'},
@@ -134,6 +140,7 @@ prop('C16',
      units=[
          dict(harness='c16_put_to_targets', covers=['c16.succeeded', 'c16.failed'], min_paths=1000, split=7,
               params={'quick': {'steps': 3}, 'thorough': {'steps': 4}}, conform={'quick': 60, 'thorough': 500}, nvals=30),
+         EXECUTOR_REQUEST,
          dict(harness='c16_dial_ledger', covers=['c16k.started', 'c16k.put-started', 'c16k.dial-failure', 'c16k.quiescent'], min_paths=20, split=3,
               params={'quick': {'steps': 2}, 'thorough': {'steps': 4}}, conform={'quick': 60, 'thorough': 500}, nvals=16),
      ],
